@@ -467,6 +467,9 @@ def judgeCli (env : Env) (parts : List String) (resp : String) : Judge.Verdict :
   | ["cli.hex_decode", d] => match unhex d with
     | some b => Judge.judgeHexDecode b resp
     | none => .skip
+  | ["cli.hash_td", j, mh] => match unhex j with
+    | some j => Judge.judgeCliHashTd j (mh == "1") resp
+    | none => .skip
   | ["cli.hash_message", m] => match unhex m with
     | some m => Judge.judgeCliDigest (Judge.eip191 m) resp
     | none => .skip
